@@ -1,61 +1,14 @@
 /-
-`tlxdriver`: runs the executable models behind a line protocol (one request per line, one reply
-line per request). The Python harness feeds the same operations to the real TLExport code and
-diffs the two output streams. Imports only Mathlib-free model files.
+`tlxdriver <module>`: runs one executable model behind the line protocol (TLX/Drv/Core.lean).
+The Python harness feeds the same operations to the real TLExport code and diffs the outputs.
+Everything imported here is Mathlib-free, so this is a native executable.
+One line per module below.
 -/
-import TLX.Py
-import TLX.Quic.PktNum
-import TLX.CipherSuite
-open TLX
+import TLX.Drv.PktNum
+import TLX.Drv.Suite
 
-structure DState where
-  pn : Quic.PktNum.Table := Quic.PktNum.Table.init
-
-def asciiStr (l : List Nat) : String := String.ofList (l.map Char.ofNat)
-
-def renderVal : CipherSuite.Val → String
-  | .tup c f => s!"tup:{asciiStr c}:{f}"
-  | .cls c => s!"cls:{asciiStr c}"
-  | .int n => s!"int:{n}"
-
-def renderParams (ps : CipherSuite.Params) : String :=
-  ";".intercalate (ps.map fun e => s!"{asciiStr e.1}={renderVal e.2}")
-
-def parsePType : String → Option Quic.PktNum.PType
-  | "i" => some .initial | "h" => some .handshake | "z" => some .zeroRtt | "o" => some .oneRtt
-  | _ => none
-
-def stepLine (s : DState) (line : String) : DState × String :=
-  match (line.trimAscii.toString.splitOn " ").filter (· ≠ "") with
-  | ["suite", code] =>
-    match code.toNat? with
-    | some c => (s, match CipherSuite.resolve c with | none => "none" | some ps => renderParams ps)
-    | none => (s, "bad-op")
-  | ["pnreset"] => ({ s with pn := Quic.PktNum.Table.init }, "ok")
-  | ["pn", srv, ty, n, trunc] =>
-    match parsePType ty, n.toNat?, trunc.toNat? with
-    | some ty, some n, some trunc =>
-      let (out, t) := Quic.PktNum.step s.pn (srv == "1") ty n trunc
-      ({ s with pn := t }, s!"{out} {t.get (srv == "1") ty.space}")
-    | _, _, _ => (s, "bad-op")
-  | ["pnset", srv, ty, largest] =>
-    match parsePType ty, largest.toNat? with
-    | some ty, some l => ({ s with pn := s.pn.set (srv == "1") ty.space l }, "ok")
-    | _, _ => (s, "bad-op")
-  | ["pnrfc", n, largest, trunc] =>
-    match n.toNat?, largest.toNat?, trunc.toNat? with
-    | some n, some l, some t => (s, toString (Quic.PktNum.rfcDecode (2 ^ (8 * n)) (2 ^ 62) l t))
-    | _, _, _ => (s, "bad-op")
-  | _ => (s, "bad-op")
-
-partial def loop (h : IO.FS.Stream) (out : IO.FS.Stream) (s : DState) : IO Unit := do
-  let line ← h.getLine
-  if line.isEmpty then return ()
-  let (s', reply) := stepLine s line
-  out.putStrLn reply
-  loop h out s'
-
-def main : IO Unit := do
-  let stdin ← IO.getStdin
-  let stdout ← IO.getStdout
-  loop stdin stdout {}
+def main (args : List String) : IO UInt32 := do
+  match args with
+  | ["pn"] => TLX.Drv.PktNum.main; return 0
+  | ["suite"] => TLX.Drv.Suite.main; return 0
+  | _ => IO.eprintln "usage: tlxdriver <module>"; return 2
